@@ -18,15 +18,18 @@ class SRange:
 
     def __init__(self, lo, hi, step=1):
         self.lo, self.hi, self.step = lo, hi, step
-        if not isinstance(conc(step), int) or conc(step) <= 0:
-            raise Undecided("range with symbolic or non-positive step and symbolic bounds")
+        if not isinstance(conc(step), int) or conc(step) == 0 or conc(step) < -1:
+            raise Undecided("range with symbolic step (or step < -1) and symbolic bounds")
         self.step = conc(step)
 
     def sym_len(self):
+        if self.step == -1:
+            d = lift(self.lo) - lift(self.hi)
+            return core.ite_pc(d < 0, 0, d)
         d = lift(self.hi) - lift(self.lo)
         if self.step != 1:
             d = (d + (self.step - 1)) // self.step
-        return ite(d < 0, 0, d)
+        return core.ite_pc(d < 0, 0, d)
 
     def sym_at(self, i):
         return lift(self.lo) + lift(i) * self.step
@@ -238,6 +241,8 @@ MODEL_BUILTINS = dict(len=m_len, range=m_range, abs=m_abs, int=m_int, float=m_fl
 # ----------------------------------------------------------------------------- havoc
 
 def fresh_like(old, name="h"):
+    if isinstance(old, core.SOpaque):
+        return core.SOpaque(z3.Const(ctx().fresh_name(name), old.t.sort()))
     if isinstance(old, SBool) or isinstance(old, bool):
         return fresh_bool(name)
     if isinstance(old, SNum):
